@@ -74,4 +74,40 @@ def chronoDtToCql (secs millis : Int) : Int := secs * 1000 + millis
 /-- `TryInto<chrono::DateTime<Utc>> for CqlTimestamp`: `timestamp_millis_opt` (floor seconds, sub-second millis). -/
 def cqlToChronoDt (ms : Int) : Int × Int := (ms / 1000, ms % 1000)
 
+/-! ### the external carriers' own `DeserializeValue` code (`deserialize/value.rs:606-756`)
+
+`chrono::NaiveDate` (`try_days` + `checked_add_signed` from 1970-01-01), `time::Date` (`checked_add` from
+1970-01-01), `chrono::DateTime<Utc>` (`timestamp_millis_opt`), `time::OffsetDateTime`
+(`from_unix_timestamp_nanos`) do not go through the `TryInto` impls above; `chrono::NaiveTime` and `time::Time`
+first apply the column's range check (`get_nanos_from_time_column`) and then do.  Ranges of the external
+types (checked against the crates' own constants by the `conv bounds` case on every run; `time` built without
+its `large-dates` feature — with it the `time` range is ±999999 years): -/
+
+def chronoDateMinDays : Int := -96465292
+def chronoDateMaxDays : Int := 95026236
+def chronoDtMinMs : Int := -8334601228800000
+def chronoDtMaxMs : Int := 8210266876799999
+
+/-- `NaiveDate::deserialize`: days since the epoch, `ValueOverflow` outside chrono's range. -/
+def deChronoDate (days : Int) : Option Int :=
+  let d := days - 2 ^ 31
+  if chronoDateMinDays ≤ d ∧ d ≤ chronoDateMaxDays then some d else none
+
+/-- `time::Date::deserialize`: 1970-01-01 plus the day offset, `ValueOverflow` outside the crate's range —
+the same function of the Julian day as `cqlToTimeDate`. -/
+def deTimeDate (days : Int) : Option Int := cqlToTimeDate days
+
+/-- `DateTime<Utc>::deserialize`. -/
+def deChronoDt (ms : Int) : Option (Int × Int) :=
+  if chronoDtMinMs ≤ ms ∧ ms ≤ chronoDtMaxMs then some (ms / 1000, ms % 1000) else none
+
+/-- `OffsetDateTime::deserialize` (same arithmetic as `cqlToTimeOdt`). -/
+def deTimeOdt (ms : Int) : Option (Int × Int) := cqlToTimeOdt ms
+
+/-- `NaiveTime::deserialize` / `time::Time::deserialize`: the column's range check, then the `TryInto`. -/
+def deChronoTime (x : Int) : Option (Int × Int) :=
+  if 0 ≤ x ∧ x ≤ 86399999999999 then cqlToChronoTime x else none
+def deTimeTime (x : Int) : Option (Int × Int × Int × Int) :=
+  if 0 ≤ x ∧ x ≤ 86399999999999 then cqlToTimeTime x else none
+
 end ScyllaVerif.ExternalConv
